@@ -1,12 +1,1012 @@
+//! C16 driver (direction R): replays the abstract mutation plans enumerated by TLC from
+//! spec/MC_KmlGuards.tla on the real anda_kip parser and tree validator.
+//!
+//! Every plan is rendered twice, independently of each other:
+//!  (a) as KML text, fed to `parse_kip` and `parse_kml`;
+//!  (b) as a JSON command tree (the serde encoding of `anda_kip::Command`, built by hand, never by
+//!      the parser), decoded and fed to `validate_command` and to `Operation { ast }.parse()`.
+//! The accepted / refused outcome is compared with the verdict TLC computed from KmlGuards.tla.
+//! When the text is accepted, the parsed command must EQUAL the hand-built tree (the accepted tree
+//! is exactly the cell: nothing dropped, nothing added); for the ASSERT shorthand the parsed command
+//! must equal the tree of the expansion TLC computed (ExpandPlan), up to the names of the synthetic
+//! handles.  An independent walker re-checks the bare safety facts on every accepted command.
+//!
+//!   drive_kmlguards run <cases.ndjson> <out.json>
+//!   drive_kmlguards probe            (stdin: one command per line; prints accept/refuse + tree)
+
+use anda_kip::{Command, MutationClause, Operation, UpdateAction, WhereClause};
+use serde_json::{Map, Value, json};
+use std::collections::{BTreeMap, BTreeSet};
 use std::io::BufRead;
-fn main() {
+use std::panic::{AssertUnwindSafe, catch_unwind};
+
+const PROTECTED: &[&str] = &["_system", "governance", "space_id", "space_seq"];
+
+// ---------------------------------------------------------------------------
+// helpers over the abstract syntax (serde_json values printed by TLC's ToJson)
+
+fn s(v: &Value) -> &str {
+    v.as_str().unwrap_or("")
+}
+fn tag(v: &Value) -> &str {
+    v.get(0).and_then(|x| x.as_str()).unwrap_or("")
+}
+fn arr(v: &Value) -> &[Value] {
+    v.as_array().map(|a| a.as_slice()).unwrap_or(&[])
+}
+fn quote(x: &str) -> String {
+    Value::String(x.to_string()).to_string()
+}
+
+// ---------------------------------------------------------------------------
+// (a) text
+
+fn ref_text(r: &Value) -> String {
+    match tag(r) {
+        "h" => format!("?{}", s(&r[1])),
+        "p" => format!(":{}", s(&r[1])),
+        "id" => quote(s(&r[1])),
+        _ => String::new(),
+    }
+}
+
+fn val_text(v: &Value) -> String {
+    match tag(v) {
+        "num" => v[1].to_string(),
+        "str" => quote(s(&v[1])),
+        "bool" => "true".into(),
+        "null" => "null".into(),
+        "p" => format!(":{}", s(&v[1])),
+        "h" | "var" => format!("?{}", s(&v[1])),
+        "path" => format!("?{}.score", s(&v[1])),
+        "expr" => format!("ADD(?{}.score, 1)", s(&v[1])),
+        "exprp" => "ADD(:pv, 1)".into(),
+        "arr" => format!("[{}]", arr(&v[1]).iter().map(val_text).collect::<Vec<_>>().join(", ")),
+        "obj" => format!("{{{}: {}}}", s(&v[1]), val_text(&v[2])),
+        _ => String::new(),
+    }
+}
+
+fn key_text(e: &Value) -> String {
+    if e["q"].as_bool().unwrap_or(false) { quote(s(&e["n"])) } else { s(&e["n"]).to_string() }
+}
+
+fn assignments_text(ents: &Value) -> String {
+    let items: Vec<String> = arr(ents).iter().map(|e| format!("{}: {}", key_text(e), val_text(&e["v"]))).collect();
+    format!("{{ {} }}", items.join(", "))
+}
+
+fn unset_text(ents: &Value) -> String {
+    let items: Vec<String> = arr(ents).iter().map(key_text).collect();
+    format!("{{ {} }}", items.join(", "))
+}
+
+fn edges_text(ents: &Value, with_options: bool) -> String {
+    let items: Vec<String> = arr(ents)
+        .iter()
+        .map(|e| {
+            let mut t = format!("({}, {})", quote(s(&e["n"])), val_text(&e["v"]));
+            if with_options {
+                if let Some(role) = e.get("role") {
+                    t.push_str(&format!(" {{role: {}}}", quote(s(role))));
+                } else if let Some(o) = e.get("o") {
+                    t.push_str(&format!(" {{after: {}}}", val_text(o)));
+                }
+            }
+            t
+        })
+        .collect();
+    format!("{{ {} }}", items.join(" "))
+}
+
+fn action_text(a: &Value) -> String {
+    let ents = &a["ents"];
+    match s(&a["b"]) {
+        "FIELDS" => format!("SET FIELDS {}", assignments_text(ents)),
+        "ATTRS" => format!("SET ATTRIBUTES {}", assignments_text(ents)),
+        "FACET" => format!("SET FACET \"Fx\" {}", assignments_text(ents)),
+        "STRUCT" => format!("SET STRUCTURAL {}", edges_text(ents, true)),
+        "UNATTRS" => format!("UNSET ATTRIBUTES {}", unset_text(ents)),
+        "UNFACET" => format!("UNSET FACET \"Fx\" {}", unset_text(ents)),
+        "UNSTRUCT" => format!("UNSET STRUCTURAL {}", edges_text(ents, false)),
+        "UNFIELDS" => format!("UNSET FIELDS {}", unset_text(ents)),
+        // the retention object outside SET RETENTION has no spelling of its own
+        "RETENTION" => format!("SET RETENTION {}", assignments_text(ents)),
+        other => format!("SET {other} {{ }}"),
+    }
+}
+
+fn acts_text(c: &Value) -> String {
+    arr(&c["acts"]).iter().map(action_text).collect::<Vec<_>>().join(" ")
+}
+
+fn where_item_text(it: &Value) -> String {
+    match tag(it) {
+        "pat" => {
+            let (kind, v, sp) = (s(&it[1]), s(&it[2]), s(&it[3]));
+            match (kind, sp) {
+                ("concept", "bare") => format!("?{v} {{id: \"K-1\"}}"),
+                ("concept", _) => format!("?{v} CONCEPT {{id: \"K-1\"}}"),
+                ("proposition", "bare") => format!("?{v} (:ws, \"rel\", :wo)"),
+                ("proposition", "id") => format!("?{v} PROPOSITION (id: \"P-1\")"),
+                ("proposition", _) => format!("?{v} PROPOSITION (:ws, \"rel\", :wo)"),
+                (k, _) => format!("?{v} {} {{id: \"K-1\"}}", k.to_uppercase()),
+            }
+        }
+        "end" => format!("PROPOSITION (?{}, \"rel\", :wo)", s(&it[1])),
+        "belief" => match s(&it[2]) {
+            "var" => format!("?{} BELIEF (?bp)", s(&it[1])),
+            "id" => format!("?{} BELIEF (id: \"P-1\")", s(&it[1])),
+            _ => format!("?{} BELIEF (:ws, \"rel\", :wo)", s(&it[1])),
+        },
+        "slot" => format!("?{} BELIEF SLOT (:ws, \"rel\")", s(&it[1])),
+        "filter" => format!("FILTER(?{}.score > 1)", s(&it[1])),
+        "not" => format!("NOT {}", where_text(&it[1])),
+        "opt" => format!("OPTIONAL {}", where_text(&it[1])),
+        "union" => format!("UNION {}", where_text(&it[1])),
+        _ => String::new(),
+    }
+}
+
+fn where_text(w: &Value) -> String {
+    format!("{{ {} }}", arr(w).iter().map(where_item_text).collect::<Vec<_>>().join(" "))
+}
+
+fn opt_where_text(c: &Value) -> String {
+    if c["hasw"].as_bool().unwrap_or(false) { format!(" WHERE {}", where_text(&c["w"])) } else { String::new() }
+}
+
+fn tuple_text(t: &Value) -> String {
+    match s(&t["form"]) {
+        "tuple" => format!("({}, \"rel\", {})", ref_text(&t["s"]), ref_text(&t["o"])),
+        "id" => "(id: \"P-1\")".into(),
+        "idp" => "(id: :pid)".into(),
+        "predvar" => format!("({}, ?pr, {})", ref_text(&t["s"]), ref_text(&t["o"])),
+        "litsubj" => format!("(\"lit\", \"rel\", {})", ref_text(&t["o"])),
+        "nestid" => format!("((id: \"P-1\"), \"rel\", {})", ref_text(&t["o"])),
+        _ => "()".into(),
+    }
+}
+
+fn handle_text(c: &Value) -> String {
+    let n = s(&c["claim"]);
+    if n.is_empty() { String::new() } else { format!("?{n} ") }
+}
+
+fn clause_text(c: &Value) -> String {
+    let fam = s(&c["fam"]);
+    let tgt = ref_text(&c["tgt"]);
+    let by = ref_text(&c["by"]);
+    match fam {
+        "create_concept" => format!("CREATE CONCEPT {}{{ TYPE \"T\" {} }}", handle_text(c), acts_text(c)),
+        "upsert_concept" => {
+            let m = if c["nomatch"].as_bool().unwrap_or(false) {
+                String::new()
+            } else {
+                let items: Vec<String> =
+                    arr(&c["sel"]).iter().map(|e| format!("{}: {}", key_text(e), val_text(&e["v"]))).collect();
+                format!("MATCH {{{}}} ", items.join(", "))
+            };
+            format!("UPSERT CONCEPT {}{{ {}{} }}", handle_text(c), m, acts_text(c))
+        }
+        "create_evidence" | "create_assertion" | "create_activity" => {
+            let kw = fam.trim_start_matches("create_").to_uppercase();
+            let ck = match c.get("ckey") {
+                Some(k) if tag(k) != "none" => format!("CLIENT KEY {} ", val_text(k)),
+                _ => String::new(),
+            };
+            format!("CREATE {kw} {}{{ {}{} }}", handle_text(c), ck, acts_text(c))
+        }
+        "ensure" => format!("ENSURE PROPOSITION {}{}", handle_text(c), tuple_text(&c["tup"])),
+        "assert" => {
+            let sup = if tag(&c["sup"]) == "none" { String::new() } else { format!(" SUPERSEDING {}", ref_text(&c["sup"])) };
+            format!("ASSERT {}{} {}{}", handle_text(c), tuple_text(&c["tup"]), assignments_text(&c["mem"]), sup)
+        }
+        "update" => format!("UPDATE {tgt} {}{}", acts_text(c), opt_where_text(c)),
+        "transition" => format!("TRANSITION ACTIVITY {tgt} TO \"completed\" {}", acts_text(c)),
+        "set_retention" => {
+            // the retention object comes first; any other block has no place in the statement
+            let mut obj = String::new();
+            let mut rest = Vec::new();
+            for a in arr(&c["acts"]) {
+                if s(&a["b"]) == "RETENTION" && obj.is_empty() {
+                    obj = assignments_text(&a["ents"]);
+                } else {
+                    rest.push(action_text(a));
+                }
+            }
+            format!("SET RETENTION {tgt} {obj} {}{}", rest.join(" "), opt_where_text(c))
+        }
+        "archive" => format!("ARCHIVE {tgt}{}", opt_where_text(c)),
+        "tombstone" => format!("TOMBSTONE {tgt}{}", opt_where_text(c)),
+        "retract" => format!("RETRACT ASSERTION {tgt}{}", opt_where_text(c)),
+        "purge" => format!("PURGE {tgt}{} CONFIRM {}", opt_where_text(c), quote(s(&c["confirm"]))),
+        "supersede" => format!("SUPERSEDE ASSERTION {tgt} BY {by}"),
+        "correct" => format!("CORRECT EVIDENCE {tgt} BY {by}"),
+        "merge" => format!("MERGE CONCEPT {tgt} INTO {by}{}", opt_where_text(c)),
+        "export" => format!("EXPORT CAPSULE {tgt} WHERE {}", where_text(&c["w"])),
+        other => format!("UNKNOWN {other}"),
+    }
+}
+
+fn plan_text(plan: &Value) -> String {
+    let cs = arr(plan);
+    if cs.len() == 1 {
+        clause_text(&cs[0])
+    } else {
+        format!("MUTATE {{ {} }}", cs.iter().map(clause_text).collect::<Vec<_>>().join(" "))
+    }
+}
+
+// ---------------------------------------------------------------------------
+// (b) tree.  None = the AST type cannot carry this plan (a block the clause has no slot for, a
+// bare-id ENSURE, the ASSERT shorthand itself, a second block of the same kind).
+
+fn kip_literal(v: &Value) -> Option<Value> {
+    Some(match tag(v) {
+        "num" => json!({"Number": v[1]}),
+        "str" => json!({"String": s(&v[1])}),
+        "bool" => json!({"Bool": true}),
+        "null" => json!("Null"),
+        "arr" => {
+            let mut out = Vec::new();
+            for x in arr(&v[1]) {
+                out.push(kip_literal(x)?);
+            }
+            json!({"Array": out})
+        }
+        "obj" => {
+            let inner = kip_literal(&v[2])?;
+            let mut m = Map::new();
+            m.insert(s(&v[1]).to_string(), inner);
+            json!({"Object": m})
+        }
+        _ => return None,
+    })
+}
+
+fn path_json(var: &str) -> Value {
+    json!({"var": var, "path": [{"Field": "score"}]})
+}
+
+/// BoundValue / MutationValue (same tags; `Expr` only at the top of a MutationValue).
+fn value_tree(v: &Value) -> Value {
+    if let Some(lit) = kip_literal(v) {
+        return json!({"Value": lit});
+    }
+    match tag(v) {
+        "p" => json!({"Param": s(&v[1])}),
+        "h" => json!({"Handle": s(&v[1])}),
+        "path" => json!({"Variable": path_json(s(&v[1]))}),
+        "expr" => json!({"Expr": {"Function": {"func": "Add", "args": [{"Variable": path_json(s(&v[1]))}, {"Number": 1}]}}}),
+        "exprp" => json!({"Expr": {"Function": {"func": "Add", "args": [{"Param": "pv"}, {"Number": 1}]}}}),
+        "arr" => json!({"Array": arr(&v[1]).iter().map(value_tree).collect::<Vec<_>>()}),
+        "obj" => json!({"Object": [[s(&v[1]), value_tree(&v[2])]]}),
+        _ => Value::Null,
+    }
+}
+
+fn scalar_tree(v: &Value) -> Option<Value> {
+    match tag(v) {
+        "p" => Some(json!({"Param": s(&v[1])})),
+        "num" | "str" | "bool" | "null" => Some(json!({"Literal": kip_literal(v)?})),
+        _ => None,
+    }
+}
+
+fn ref_tree(r: &Value) -> Value {
+    match tag(r) {
+        "h" => json!({"Handle": s(&r[1])}),
+        "p" => json!({"Param": s(&r[1])}),
+        "id" => json!({"Id": s(&r[1])}),
+        _ => Value::Null,
+    }
+}
+
+fn term_tree(r: &Value) -> Value {
+    match tag(r) {
+        "h" => json!({"Variable": s(&r[1])}),
+        "p" => json!({"Param": s(&r[1])}),
+        _ => Value::Null,
+    }
+}
+
+fn assignments_tree(ents: &Value) -> Value {
+    Value::Array(arr(ents).iter().map(|e| json!([s(&e["n"]), value_tree(&e["v"])])).collect())
+}
+
+fn names_tree(ents: &Value) -> Value {
+    Value::Array(arr(ents).iter().map(|e| json!(s(&e["n"]))).collect())
+}
+
+fn edges_tree(ents: &Value) -> Value {
+    Value::Array(
+        arr(ents)
+            .iter()
+            .map(|e| {
+                let options = if let Some(role) = e.get("role") {
+                    json!({"role": {"Value": {"String": s(role)}}})
+                } else if let Some(o) = e.get("o") {
+                    json!({"after": value_tree(o)})
+                } else {
+                    Value::Null
+                };
+                json!({"field": {"Name": s(&e["n"])}, "value": value_tree(&e["v"]), "options": options})
+            })
+            .collect(),
+    )
+}
+
+fn removals_tree(ents: &Value) -> Value {
+    Value::Array(arr(ents).iter().map(|e| json!({"field": {"Name": s(&e["n"])}, "value": value_tree(&e["v"])})).collect())
+}
+
+fn wtuple(subject: Value) -> Value {
+    json!({"subject": subject, "predicate": {"Atom": {"Literal": "rel"}}, "object": {"Param": "wo"}})
+}
+
+fn where_item_tree(it: &Value) -> Value {
+    let idm = json!({"id": {"Literal": {"String": "K-1"}}});
+    match tag(it) {
+        "pat" => {
+            let (kind, v, sp) = (s(&it[1]), s(&it[2]), s(&it[3]));
+            match kind {
+                "concept" => json!({"Concept": {"variable": v, "matcher": idm}}),
+                "assertion" => json!({"Assertion": {"variable": v, "matcher": idm}}),
+                "evidence" => json!({"Evidence": {"variable": v, "matcher": idm}}),
+                "activity" => json!({"Activity": {"variable": v, "matcher": idm}}),
+                _ => {
+                    let matcher = if sp == "id" {
+                        json!({"Id": {"Literal": {"String": "P-1"}}})
+                    } else {
+                        json!({"Tuple": wtuple(json!({"Param": "ws"}))})
+                    };
+                    json!({"Proposition": {"variable": v, "matcher": matcher}})
+                }
+            }
+        }
+        "end" => json!({"Proposition": {"variable": null, "matcher": {"Tuple": wtuple(json!({"Variable": s(&it[1])}))}}}),
+        "belief" => {
+            let target = match s(&it[2]) {
+                "var" => json!({"Proposition": "bp"}),
+                "id" => json!({"Id": {"Literal": {"String": "P-1"}}}),
+                _ => json!({"Tuple": wtuple(json!({"Param": "ws"}))}),
+            };
+            json!({"Belief": {"variable": s(&it[1]), "target": target}})
+        }
+        "slot" => json!({"BeliefSlot": {"variable": s(&it[1]), "subject": {"Param": "ws"}, "predicate": {"Literal": "rel"}}}),
+        "filter" => json!({"Filter": {"expression": {"Comparison": {
+            "left": {"Variable": path_json(s(&it[1]))}, "operator": "GreaterThan", "right": {"Literal": {"Number": 1}}}}}}),
+        "not" => json!({"Not": where_tree(&it[1])}),
+        "opt" => json!({"Optional": where_tree(&it[1])}),
+        "union" => json!({"Union": where_tree(&it[1])}),
+        _ => Value::Null,
+    }
+}
+
+fn where_tree(w: &Value) -> Value {
+    Value::Array(arr(w).iter().map(where_item_tree).collect())
+}
+
+fn opt_where_tree(c: &Value) -> Value {
+    if c["hasw"].as_bool().unwrap_or(false) { where_tree(&c["w"]) } else { Value::Null }
+}
+
+/// Folds the actions of a body family into the slots its struct has.
+struct Slots {
+    one: BTreeMap<&'static str, Value>,
+    set_facets: Vec<Value>,
+    unset_facets: Vec<Value>,
+}
+
+fn slots(c: &Value, allowed: &[&str]) -> Option<Slots> {
+    let mut out = Slots { one: BTreeMap::new(), set_facets: vec![], unset_facets: vec![] };
+    for a in arr(&c["acts"]) {
+        let b = s(&a["b"]);
+        if !allowed.contains(&b) {
+            return None;
+        }
+        let ents = &a["ents"];
+        let (slot, v): (&'static str, Value) = match b {
+            "FIELDS" => ("set_fields", assignments_tree(ents)),
+            "ATTRS" => ("set_attributes", assignments_tree(ents)),
+            "RETENTION" => ("values", assignments_tree(ents)),
+            "STRUCT" => ("set_structural", edges_tree(ents)),
+            "UNATTRS" => ("unset_attributes", names_tree(ents)),
+            "UNSTRUCT" => ("unset_structural", removals_tree(ents)),
+            "FACET" => {
+                out.set_facets.push(json!({"facet": {"Name": "Fx"}, "values": assignments_tree(ents)}));
+                continue;
+            }
+            "UNFACET" => {
+                out.unset_facets.push(json!({"facet": {"Name": "Fx"}, "fields": names_tree(ents)}));
+                continue;
+            }
+            _ => return None,
+        };
+        if out.one.insert(slot, v).is_some() {
+            return None;
+        }
+    }
+    Some(out)
+}
+
+fn slot(sl: &Slots, name: &str) -> Value {
+    sl.one.get(name).cloned().unwrap_or(Value::Null)
+}
+
+fn clause_tree(c: &Value) -> Option<Value> {
+    let fam = s(&c["fam"]);
+    let claim = s(&c["claim"]);
+    Some(match fam {
+        "create_concept" => {
+            let sl = slots(c, &["FIELDS", "ATTRS", "FACET", "STRUCT"])?;
+            json!({"CreateConcept": {"handle": claim, "type": {"Name": "T"}, "client_key": null, "name": null,
+                "set_fields": slot(&sl, "set_fields"), "set_attributes": slot(&sl, "set_attributes"),
+                "set_facets": sl.set_facets, "set_structural": slot(&sl, "set_structural")}})
+        }
+        "upsert_concept" => {
+            let sl = slots(c, &["FIELDS", "ATTRS", "FACET", "STRUCT", "UNATTRS", "UNFACET", "UNSTRUCT"])?;
+            let m = if c["nomatch"].as_bool().unwrap_or(false) {
+                Value::Null
+            } else {
+                let mut m = Map::new();
+                for e in arr(&c["sel"]) {
+                    let v = &e["v"];
+                    let mv = match tag(v) {
+                        "p" => json!({"Param": s(&v[1])}),
+                        "var" => json!({"Variable": s(&v[1])}),
+                        _ => json!({"Literal": kip_literal(v)?}),
+                    };
+                    if m.insert(s(&e["n"]).to_string(), mv).is_some() {
+                        return None;
+                    }
+                }
+                Value::Object(m)
+            };
+            json!({"UpsertConcept": {"handle": claim, "match": m, "expect_version": null,
+                "set_fields": slot(&sl, "set_fields"), "set_attributes": slot(&sl, "set_attributes"),
+                "set_facets": sl.set_facets, "unset_attributes": slot(&sl, "unset_attributes"),
+                "unset_facets": sl.unset_facets, "set_structural": slot(&sl, "set_structural"),
+                "unset_structural": slot(&sl, "unset_structural")}})
+        }
+        "create_evidence" | "create_assertion" | "create_activity" => {
+            let sl = slots(c, &["FIELDS", "FACET", "STRUCT"])?;
+            let ck = match c.get("ckey") {
+                Some(k) if tag(k) != "none" => scalar_tree(k)?,
+                _ => Value::Null,
+            };
+            let variant = match fam {
+                "create_evidence" => "CreateEvidence",
+                "create_assertion" => "CreateAssertion",
+                _ => "CreateActivity",
+            };
+            json!({variant: {"handle": claim, "client_key": ck, "set_fields": slot(&sl, "set_fields"),
+                "set_facets": sl.set_facets, "set_structural": slot(&sl, "set_structural")}})
+        }
+        "ensure" => {
+            let t = &c["tup"];
+            let (subject, predicate) = match s(&t["form"]) {
+                "tuple" => (term_tree(&t["s"]), json!({"Literal": "rel"})),
+                "predvar" => (term_tree(&t["s"]), json!({"Variable": "pr"})),
+                "litsubj" => (json!({"Literal": {"String": "lit"}}), json!({"Literal": "rel"})),
+                "nestid" => (json!({"Proposition": {"Id": {"Literal": {"String": "P-1"}}}}), json!({"Literal": "rel"})),
+                _ => return None,
+            };
+            let handle = if claim.is_empty() { Value::Null } else { json!(claim) };
+            json!({"EnsureProposition": {"handle": handle, "subject": subject, "predicate": predicate,
+                "object": term_tree(&t["o"]), "expect_version": null}})
+        }
+        "assert" => return None,
+        "update" => {
+            let mut actions = Vec::new();
+            for a in arr(&c["acts"]) {
+                let ents = &a["ents"];
+                actions.push(match s(&a["b"]) {
+                    "FIELDS" => json!({"SetFields": assignments_tree(ents)}),
+                    "ATTRS" => json!({"SetAttributes": assignments_tree(ents)}),
+                    "FACET" => json!({"SetFacet": {"facet": {"Name": "Fx"}, "values": assignments_tree(ents)}}),
+                    "UNATTRS" => json!({"UnsetAttributes": names_tree(ents)}),
+                    "UNFACET" => json!({"UnsetFacet": {"facet": {"Name": "Fx"}, "fields": names_tree(ents)}}),
+                    "STRUCT" => json!({"SetStructural": edges_tree(ents)}),
+                    "UNSTRUCT" => json!({"UnsetStructural": removals_tree(ents)}),
+                    _ => return None,
+                });
+            }
+            json!({"Update": {"target": ref_tree(&c["tgt"]), "expect_version": null, "actions": actions,
+                "where_clauses": opt_where_tree(c), "limit": null}})
+        }
+        "transition" => {
+            let sl = slots(c, &["FIELDS", "STRUCT"])?;
+            json!({"TransitionActivity": {"target": ref_tree(&c["tgt"]), "to": {"Literal": {"String": "completed"}},
+                "set_fields": slot(&sl, "set_fields"), "set_structural": slot(&sl, "set_structural"), "expect_state": null}})
+        }
+        "set_retention" => {
+            let sl = slots(c, &["RETENTION"])?;
+            let values = sl.one.get("values").cloned()?;
+            json!({"SetRetention": {"target": ref_tree(&c["tgt"]), "values": values, "where_clauses": opt_where_tree(c),
+                "limit": null, "expect_version": null}})
+        }
+        "archive" | "tombstone" => {
+            let variant = if fam == "archive" { "Archive" } else { "Tombstone" };
+            json!({variant: {"target": ref_tree(&c["tgt"]), "where_clauses": opt_where_tree(c), "limit": null, "expect_state": null}})
+        }
+        "retract" => json!({"RetractAssertion": {"target": ref_tree(&c["tgt"]), "where_clauses": opt_where_tree(c),
+            "limit": null, "expect_state": null}}),
+        "purge" => json!({"Purge": {"target": ref_tree(&c["tgt"]), "where_clauses": opt_where_tree(c), "limit": null,
+            "reference_policy": null, "confirm": s(&c["confirm"])}}),
+        "supersede" => json!({"SupersedeAssertion": {"target": ref_tree(&c["tgt"]), "by": ref_tree(&c["by"]), "expect_state": null}}),
+        "correct" => json!({"CorrectEvidence": {"target": ref_tree(&c["tgt"]), "by": ref_tree(&c["by"]), "expect_state": null}}),
+        "merge" => json!({"MergeConcept": {"source": ref_tree(&c["tgt"]), "into": ref_tree(&c["by"]),
+            "where_clauses": opt_where_tree(c), "expect_version": null}}),
+        _ => return None,
+    })
+}
+
+fn plan_tree(plan: &Value, explicit: bool) -> Option<Value> {
+    let cs = arr(plan);
+    if cs.len() == 1 && s(&cs[0]["fam"]) == "export" {
+        let c = &cs[0];
+        return Some(json!({"Meta": {"ExportCapsule": {"target": ref_tree(&c["tgt"]), "where_clauses": where_tree(&c["w"]),
+            "options": null, "as_of": null}}}));
+    }
+    let mut clauses = Vec::new();
+    for c in cs {
+        clauses.push(clause_tree(c)?);
+    }
+    Some(json!({"Kml": {"explicit_transaction": explicit, "clauses": clauses}}))
+}
+
+// ---------------------------------------------------------------------------
+// running the real code
+
+#[derive(Clone, Debug)]
+enum Outcome {
+    Accept(Box<Command>),
+    Refuse(String),
+    Panic(String),
+}
+
+impl Outcome {
+    fn label(&self) -> String {
+        match self {
+            Outcome::Accept(_) => "accept".into(),
+            Outcome::Refuse(m) => format!("refuse: {m}"),
+            Outcome::Panic(m) => format!("panic: {m}"),
+        }
+    }
+    fn accepted(&self) -> bool {
+        matches!(self, Outcome::Accept(_))
+    }
+    fn kind(&self) -> &'static str {
+        match self {
+            Outcome::Accept(_) => "accept",
+            Outcome::Refuse(_) => "refuse",
+            Outcome::Panic(_) => "panic",
+        }
+    }
+}
+
+fn guarded<F: FnOnce() -> Result<Command, anda_kip::KipError>>(f: F) -> Outcome {
+    match catch_unwind(AssertUnwindSafe(f)) {
+        Ok(Ok(c)) => Outcome::Accept(Box::new(c)),
+        Ok(Err(e)) => Outcome::Refuse(format!("{:?} {}", e.code, e.message.lines().last().unwrap_or("").trim())),
+        Err(p) => Outcome::Panic(
+            p.downcast_ref::<String>().cloned().or_else(|| p.downcast_ref::<&str>().map(|x| x.to_string())).unwrap_or_default(),
+        ),
+    }
+}
+
+fn run_text(text: &str) -> (Outcome, Outcome) {
+    let a = guarded(|| anda_kip::parse_kip(text));
+    let b = if text.trim_start().starts_with("EXPORT") {
+        // parse_meta is grammar only; the validating entry point for META text is parse_kip
+        a.clone()
+    } else {
+        guarded(|| anda_kip::parse_kml(text).map(Command::Kml))
+    };
+    (a, b)
+}
+
+fn run_tree(tree: &Value) -> (Outcome, Outcome) {
+    let cmd: Command = match serde_json::from_value(tree.clone()) {
+        Ok(c) => c,
+        Err(e) => {
+            let o = Outcome::Panic(format!("harness tree does not decode: {e}"));
+            return (o.clone(), o);
+        }
+    };
+    let c1 = cmd.clone();
+    let a = guarded(move || anda_kip::validate_command(&c1).map(|_| c1.clone()));
+    let op = Operation { ast: Some(cmd), ..Default::default() };
+    let b = guarded(move || op.parse());
+    (a, b)
+}
+
+// ---------------------------------------------------------------------------
+// the independent walker: bare safety facts on a command the real code accepted
+
+fn where_has_belief(ws: &[WhereClause]) -> bool {
+    ws.iter().any(|w| match w {
+        WhereClause::Belief { .. } | WhereClause::BeliefSlot { .. } => true,
+        WhereClause::Not(i) | WhereClause::Optional(i) | WhereClause::Union(i) => where_has_belief(i),
+        _ => false,
+    })
+}
+
+fn akeys(a: &Option<anda_kip::Assignments>) -> Vec<&str> {
+    a.as_ref().map(|a| a.iter().map(|(k, _)| k.as_str()).collect()).unwrap_or_default()
+}
+
+fn walk(cmd: &Command) -> Vec<String> {
+    let mut bad = Vec::new();
+    let check_keys = |keys: Vec<&str>, what: &str, bad: &mut Vec<String>| {
+        for k in keys {
+            if PROTECTED.contains(&k) {
+                bad.push(format!("{what} names engine-owned `{k}`"));
+            }
+        }
+    };
+    match cmd {
+        Command::Kml(st) => {
+            let mut claims = BTreeSet::new();
+            for c in &st.clauses {
+                if let Some(h) = c.handle() {
+                    if !claims.insert(h.to_string()) {
+                        bad.push(format!("?{h} claimed twice"));
+                    }
+                }
+                let wh: Option<&Vec<WhereClause>> = match c {
+                    MutationClause::Update(u) => u.where_clauses.as_ref(),
+                    MutationClause::RetractAssertion(u) => u.where_clauses.as_ref(),
+                    MutationClause::SetRetention(u) => u.where_clauses.as_ref(),
+                    MutationClause::Archive(u) | MutationClause::Tombstone(u) => u.where_clauses.as_ref(),
+                    MutationClause::Purge(u) => u.where_clauses.as_ref(),
+                    MutationClause::MergeConcept(u) => u.where_clauses.as_ref(),
+                    _ => None,
+                };
+                if wh.is_some_and(|w| where_has_belief(w)) {
+                    bad.push("a belief projection selects a mutation target".into());
+                }
+                match c {
+                    MutationClause::CreateConcept(x) => {
+                        check_keys(akeys(&x.set_fields), "SET FIELDS", &mut bad);
+                        check_keys(akeys(&x.set_attributes), "SET ATTRIBUTES", &mut bad);
+                        for f in &x.set_facets {
+                            check_keys(f.values.iter().map(|(k, _)| k.as_str()).collect(), "SET FACET", &mut bad);
+                        }
+                    }
+                    MutationClause::UpsertConcept(x) => {
+                        check_keys(akeys(&x.set_fields), "SET FIELDS", &mut bad);
+                        check_keys(akeys(&x.set_attributes), "SET ATTRIBUTES", &mut bad);
+                        for f in &x.set_facets {
+                            check_keys(f.values.iter().map(|(k, _)| k.as_str()).collect(), "SET FACET", &mut bad);
+                        }
+                        check_keys(x.unset_attributes.iter().flatten().map(|k| k.as_str()).collect(), "UNSET ATTRIBUTES", &mut bad);
+                        for f in &x.unset_facets {
+                            check_keys(f.fields.iter().map(|k| k.as_str()).collect(), "UNSET FACET", &mut bad);
+                        }
+                        let stable = x.r#match.as_ref().is_some_and(|m| {
+                            ["id", "key"].iter().any(|k| {
+                                matches!(m.get(*k), Some(anda_kip::MatchValue::Literal(_) | anda_kip::MatchValue::Param(_)))
+                            })
+                        });
+                        if !stable {
+                            bad.push("UPSERT without a stable identity selector".into());
+                        }
+                    }
+                    MutationClause::CreateEvidence(x) | MutationClause::CreateAssertion(x) | MutationClause::CreateActivity(x) => {
+                        check_keys(akeys(&x.set_fields), "SET FIELDS", &mut bad);
+                        for f in &x.set_facets {
+                            check_keys(f.values.iter().map(|(k, _)| k.as_str()).collect(), "SET FACET", &mut bad);
+                        }
+                    }
+                    MutationClause::Update(x) => {
+                        for a in &x.actions {
+                            match a {
+                                UpdateAction::SetFields(v) | UpdateAction::SetAttributes(v) => {
+                                    check_keys(v.iter().map(|(k, _)| k.as_str()).collect(), "UPDATE SET", &mut bad)
+                                }
+                                UpdateAction::SetFacet(f) => {
+                                    check_keys(f.values.iter().map(|(k, _)| k.as_str()).collect(), "UPDATE SET FACET", &mut bad)
+                                }
+                                UpdateAction::UnsetAttributes(f) => check_keys(f.iter().map(|k| k.as_str()).collect(), "UPDATE UNSET", &mut bad),
+                                UpdateAction::UnsetFacet(f) => {
+                                    check_keys(f.fields.iter().map(|k| k.as_str()).collect(), "UPDATE UNSET FACET", &mut bad)
+                                }
+                                _ => {}
+                            }
+                        }
+                    }
+                    MutationClause::TransitionActivity(x) => check_keys(akeys(&x.set_fields), "TRANSITION SET FIELDS", &mut bad),
+                    MutationClause::SetRetention(x) => check_keys(x.values.iter().map(|(k, _)| k.as_str()).collect(), "SET RETENTION", &mut bad),
+                    MutationClause::Purge(x) => {
+                        if x.confirm != "PURGE" {
+                            bad.push("PURGE without its confirmation".into());
+                        }
+                    }
+                    _ => {}
+                }
+            }
+            if st.clauses.is_empty() {
+                bad.push("empty plan".into());
+            }
+        }
+        Command::Meta(anda_kip::MetaCommand::ExportCapsule(e)) => {
+            if where_has_belief(&e.where_clauses) {
+                bad.push("a belief projection selects an export".into());
+            }
+        }
+        _ => {}
+    }
+    bad
+}
+
+// ---------------------------------------------------------------------------
+// comparison of trees
+
+/// Orders assignment lists by key: `{a: 1, b: 2}` and `{b: 2, a: 1}` assign the same fields.
+fn normalize(v: &mut Value) {
+    match v {
+        Value::Object(m) => {
+            for (k, x) in m.iter_mut() {
+                if (k == "set_fields" || k == "set_attributes" || k == "values") && x.is_array() {
+                    if let Some(a) = x.as_array_mut() {
+                        a.sort_by(|p, q| p[0].as_str().cmp(&q[0].as_str()));
+                    }
+                }
+                normalize(x);
+            }
+        }
+        Value::Array(a) => a.iter_mut().for_each(normalize),
+        _ => {}
+    }
+}
+
+fn rename(v: &mut Value, map: &BTreeMap<String, String>) {
+    match v {
+        Value::Object(m) => {
+            for (k, x) in m.iter_mut() {
+                if k == "Handle" || k == "handle" {
+                    if let Some(n) = x.as_str().and_then(|n| map.get(n)) {
+                        *x = Value::String(n.clone());
+                        continue;
+                    }
+                }
+                rename(x, map);
+            }
+        }
+        Value::Array(a) => a.iter_mut().for_each(|x| rename(x, map)),
+        _ => {}
+    }
+}
+
+fn claim_of(clause: &Value) -> Option<String> {
+    clause.as_object()?.values().next()?.get("handle")?.as_str().map(|x| x.to_string())
+}
+
+/// `expected` carries the synthetic handles "#a<k>" / "#p<k>"; the implementation is free to name
+/// them as it likes as long as the names are fresh.  Maps them position by position.
+fn align_synthetic(expected: &mut Value, actual: &Value) -> Result<(), String> {
+    let ecl = expected["Kml"]["clauses"].as_array().cloned().unwrap_or_default();
+    let acl = actual["Kml"]["clauses"].as_array().cloned().unwrap_or_default();
+    if ecl.len() != acl.len() {
+        return Err(format!("expected {} clauses, the parser produced {}", ecl.len(), acl.len()));
+    }
+    let mut map = BTreeMap::new();
+    let mut authored = BTreeSet::new();
+    for (e, a) in ecl.iter().zip(acl.iter()) {
+        if let (Some(en), Some(an)) = (claim_of(e), claim_of(a)) {
+            if en.starts_with('#') {
+                map.insert(en, an);
+            } else {
+                authored.insert(en);
+            }
+        }
+    }
+    let fresh: BTreeSet<&String> = map.values().collect();
+    if fresh.len() != map.len() || map.values().any(|n| authored.contains(n)) {
+        return Err(format!("synthetic handles are not fresh: {map:?}"));
+    }
+    rename(expected, &map);
+    Ok(())
+}
+
+// ---------------------------------------------------------------------------
+
+#[derive(Default)]
+struct Stats {
+    cases: u64,
+    text_runs: u64,
+    tree_runs: u64,
+    text_accept: u64,
+    text_refuse: u64,
+    tree_accept: u64,
+    tree_refuse: u64,
+    tree_unrepresentable: u64,
+    either: u64,
+    equal_trees: u64,
+    expansions: u64,
+    walked: u64,
+    mismatches: u64,
+    by_family: BTreeMap<String, (u64, u64, u64)>,
+}
+
+fn run_cases(path: &str, out_path: &str) {
+    let f = std::fs::File::open(path).expect("cases file");
+    let mut st = Stats::default();
+    let mut mism: Vec<Value> = Vec::new();
+    let mut samples: Vec<Value> = Vec::new();
+    let mut texts: BTreeSet<u64> = BTreeSet::new();
+    let mut nontrivial = 0u64;
+    let max_keep: usize = std::env::var("KMLG_MAX_KEEP").ok().and_then(|x| x.parse().ok()).unwrap_or(400);
+    std::panic::set_hook(Box::new(|_| {}));
+    for line in std::io::BufReader::new(f).lines() {
+        let line = line.unwrap();
+        if line.trim().is_empty() {
+            continue;
+        }
+        let case: Value = serde_json::from_str(&line).expect("case json");
+        st.cases += 1;
+        let fam = s(&case["f"]).to_string();
+        let exp = s(&case["exp"]).to_string();
+        let plan = &case["plan"];
+        let multi = arr(plan).len() != 1;
+        let text = plan_text(plan);
+        {
+            use std::hash::{Hash, Hasher};
+            let mut h = std::collections::hash_map::DefaultHasher::new();
+            text.hash(&mut h);
+            if texts.insert(h.finish()) && exp == "refuse" {
+                nontrivial += 1;
+            }
+        }
+        let has_assert = arr(plan).iter().any(|c| s(&c["fam"]) == "assert");
+        let tree = plan_tree(plan, multi);
+        let xtree = if has_assert && !arr(&case["x"]).is_empty() { plan_tree(&case["x"], multi) } else { None };
+
+        let report = |kind: &str, detail: String, tres: &str, jres: &str, mism: &mut Vec<Value>, st: &mut Stats| {
+            st.mismatches += 1;
+            if mism.len() < max_keep {
+                mism.push(json!({"mismatch": kind, "detail": detail, "f": fam, "i": case["i"], "exp": exp, "must": case["must"],
+                    "may": case["may"], "text": text, "text_result": tres, "tree": tree, "tree_result": jres, "case": case}));
+            }
+        };
+
+        // (a) text
+        let (t1, t2) = run_text(&text);
+        st.text_runs += 1;
+        let tl = t1.label();
+        let e = st.by_family.entry(fam.clone()).or_default();
+        e.0 += 1;
+        if t1.accepted() {
+            st.text_accept += 1;
+            e.1 += 1;
+        } else {
+            st.text_refuse += 1;
+            e.2 += 1;
+        }
+        if let Outcome::Panic(m) = &t1 {
+            report("panic_text", m.clone(), &tl, "", &mut mism, &mut st);
+        }
+        if t1.kind() != t2.kind() {
+            report("entry_points_disagree", format!("parse_kip: {} / parse_kml: {}", tl, t2.label()), &tl, "", &mut mism, &mut st);
+        }
+        match (exp.as_str(), t1.accepted()) {
+            ("refuse", true) => report("text_accepts_forbidden", String::new(), &tl, "", &mut mism, &mut st),
+            ("accept", false) => report("text_refuses_allowed", String::new(), &tl, "", &mut mism, &mut st),
+            ("either", _) => st.either += 1,
+            _ => {}
+        }
+        if let Outcome::Accept(cmd) = &t1 {
+            st.walked += 1;
+            for b in walk(cmd) {
+                report("walker_text", b, &tl, "", &mut mism, &mut st);
+            }
+            let mut actual = serde_json::to_value(&**cmd).unwrap();
+            normalize(&mut actual);
+            if has_assert {
+                // exactly the expansion the specification computes
+                if let Some(mut xt) = xtree.clone() {
+                    normalize(&mut xt);
+                    match align_synthetic(&mut xt, &actual) {
+                        Err(m) => report("expansion_differs", m, &tl, "", &mut mism, &mut st),
+                        Ok(()) => {
+                            if xt != actual {
+                                report("expansion_differs", format!("expected {xt} / parsed {actual}"), &tl, "", &mut mism, &mut st);
+                            } else {
+                                st.expansions += 1;
+                            }
+                        }
+                    }
+                } else if exp != "refuse" {
+                    report("harness", "no expansion tree for an ASSERT plan".into(), &tl, "", &mut mism, &mut st);
+                }
+            } else if let Some(mut t) = tree.clone() {
+                normalize(&mut t);
+                if t != actual {
+                    report("tree_differs_from_text", format!("built {t} / parsed {actual}"), &tl, "", &mut mism, &mut st);
+                } else {
+                    st.equal_trees += 1;
+                }
+            } else {
+                report("harness", "text accepted but the harness has no tree for it".into(), &tl, "", &mut mism, &mut st);
+            }
+        }
+
+        // (b) tree: the plan itself, or for the shorthand its expansion
+        let injected = if has_assert { xtree.clone() } else { tree.clone() };
+        match injected {
+            None => st.tree_unrepresentable += 1,
+            Some(t) => {
+                let (j1, j2) = run_tree(&t);
+                st.tree_runs += 1;
+                let jl = j1.label();
+                if j1.accepted() {
+                    st.tree_accept += 1;
+                } else {
+                    st.tree_refuse += 1;
+                }
+                if let Outcome::Panic(m) = &j1 {
+                    report("panic_tree", m.clone(), &tl, &jl, &mut mism, &mut st);
+                }
+                if j1.kind() != j2.kind() {
+                    report("entry_points_disagree", format!("validate_command: {} / Operation.parse: {}", jl, j2.label()), &tl, &jl, &mut mism, &mut st);
+                }
+                match (exp.as_str(), j1.accepted()) {
+                    ("refuse", true) => report("tree_accepts_forbidden", String::new(), &tl, &jl, &mut mism, &mut st),
+                    ("accept", false) => report("tree_refuses_allowed", String::new(), &tl, &jl, &mut mism, &mut st),
+                    _ => {}
+                }
+                if let Outcome::Accept(cmd) = &j1 {
+                    st.walked += 1;
+                    for b in walk(cmd) {
+                        report("walker_tree", b, &tl, &jl, &mut mism, &mut st);
+                    }
+                }
+            }
+        }
+        if samples.len() < 6 && (st.cases % 9973 == 1) {
+            samples.push(json!({"f": fam, "exp": exp, "must": case["must"], "text": text, "text_result": tl}));
+        }
+    }
+    let fams: Map<String, Value> = st
+        .by_family
+        .iter()
+        .map(|(k, v)| (k.clone(), json!({"cases": v.0, "text_accepted": v.1, "text_refused": v.2})))
+        .collect();
+    let summary = json!({"summary": true, "cases": st.cases, "text_runs": st.text_runs, "tree_runs": st.tree_runs,
+        "text_accept": st.text_accept, "text_refuse": st.text_refuse, "tree_accept": st.tree_accept, "tree_refuse": st.tree_refuse,
+        "tree_unrepresentable": st.tree_unrepresentable, "either": st.either, "equal_trees": st.equal_trees,
+        "expansions_equal": st.expansions, "walked": st.walked, "distinct_texts": texts.len(), "distinct_refused": nontrivial,
+        "mismatches": st.mismatches, "by_family": fams, "samples": samples});
+    let out = json!({"summary": summary, "mismatches": mism});
+    std::fs::write(out_path, serde_json::to_string(&out).unwrap()).expect("write out");
+    println!("{}", summary);
+}
+
+fn probe() {
     let stdin = std::io::stdin();
     for line in stdin.lock().lines() {
         let line = line.unwrap();
-        if line.trim().is_empty() { continue; }
+        if line.trim().is_empty() {
+            continue;
+        }
         match anda_kip::parse_kip(&line) {
             Ok(cmd) => println!("ACCEPT {}\n   {}", line, serde_json::to_string(&cmd).unwrap()),
             Err(e) => println!("REFUSE {}\n   {:?} {}", line, e.code, e.message.lines().last().unwrap_or("")),
+        }
+    }
+}
+
+fn main() {
+    let args: Vec<String> = std::env::args().collect();
+    match args.get(1).map(|x| x.as_str()) {
+        Some("run") => run_cases(&args[2], &args[3]),
+        Some("probe") => probe(),
+        _ => {
+            eprintln!("usage: drive_kmlguards run <cases.ndjson> <out.json> | probe");
+            std::process::exit(2);
         }
     }
 }
